@@ -206,6 +206,43 @@ def run(res, rng, tier, model_ok, replay=None):
     res.samples = [cases[0]["line"][:200], cases[1]["line"][:200], cases[2]["line"][:200], "wobs " + pairs[0][0]]
     # (3) one design written as a VCD, an FST and a GHW file: all three listings must equal the listing computed from the design
     designs.run_file_cases(res, designs.tri_cases(rng, tier), "c12f", timeout=1500)
+    # (4) name shapes: variables whose names carry array groups (`mem [0] [7:0]`, `mem[0] [7:0]`, `cube [1] [2] [3:0]`,
+    # with and without separating spaces) written as a VCD and an FST file: the two loaded listings must agree
+    # (which array scopes such names open is property C09; here the two formats must decide alike)
+    d = designs.prepare_dir("c12n")
+    lines, keys = [], []
+    for k in range(24 if tier == "quick" else 300):
+        used = set()
+        vs = []
+        for _ in range(rng.randint(1, 5)):
+            base = designs.fresh(rng, used)
+            groups = "".join(rng.choice([" [%d]", "[%d]"]) % rng.randrange(4) for _ in range(rng.choice([0, 1, 1, 2, 3])))
+            w = rng.choice([1, 4, 8])
+            vs.append(designs.fg.Var(base + groups, "logic", rng=(w - 1, 0) if w > 1 or rng.random() < 0.5 else None))
+        items = [designs.fg.Scope("top", vs, kind="module")]
+        designs.fill_history(rng, vs, designs.rand_times(rng, 4))
+        spec = designs._js(designs.to_spec(items))
+        for fmt in ("vcd", "fst"):
+            ln, _ = designs.write_case(d, 2 * k + (fmt == "fst"), {"fmt": fmt, "spec": spec, "opts": {}})
+            lines.append(ln)
+        keys.append(("names", k) if any("[" in v.name for v in vs) else None)
+    outs = core.run_cases(core.WV_DEBUG, lines, "c12n", timeout=600)
+    for k, key in enumerate(keys):
+        res.evaluations += 2
+        res.distribution["name-shape-twin"] = res.distribution.get("name-shape-twin", 0) + 1
+        why = compare_pair(lines[2 * k], lines[2 * k + 1], outs[2 * k], outs[2 * k + 1])
+        if why:
+            import shutil as _sh
+            keep = os.path.join(core.CACHE, "replay", "c12-names-%d" % k)
+            os.makedirs(keep, exist_ok=True)
+            for ln in (lines[2 * k], lines[2 * k + 1]):
+                _sh.copy(ln.split(" ")[1], keep)
+            res.violations.append(("%s | %s (files kept in %s)" % (lines[2 * k], lines[2 * k + 1], keep), why + " :: " + outs[2 * k][:400] + " <> " + outs[2 * k + 1][:400],
+                                   "equal observations", "a VCD and an FST file declaring the same variable names load with different trees"))
+        elif key is not None:
+            res.nontrivial.add(key)
+    import shutil
+    shutil.rmtree(d, ignore_errors=True)
 
 
 def check_known(entry):
